@@ -65,6 +65,10 @@ class World:
     def on_expired(self, entry, addr):
         self.events.append(("expired", entry, addr))
 
+    def native_snapshot(self):
+        """native runs only: the concrete contents of the store, [((addr, key), (callback, handle))]"""
+        return [((a, k), v) for a, inner in list(self.ts.store.items()) for k, v in list(inner.items())]
+
     # ---- observations
     def present(self, addr, key):
         return addr in self.ts.store and key in self.ts.store[addr]
@@ -237,13 +241,17 @@ def ob_stop_all_for_address(vc):
     timer cancelled and its expiry callback called exactly once, immediately; entries of
     other addresses are untouched; nothing is deferred"""
     w = World(vc)
+    snap = w.native_snapshot() if vc.native else None
     o = vc.outcome(vc.body(SD.TimedStore.stop_all_for_address), w.ts, w.A)
     vc.check(o.kind != "raise", "stop_all_for_address.never_raises")
     vc.check(not w.present(w.A, w.k0) and not w.present(w.A, w.k1), "stop_all_for_address.address_emptied")
     vc.check_eq(len(w.loop.ready), 0, "stop_all_for_address.defers_nothing")
     if vc.native:
-        n = len([1 for s, st in w.slots.items() if s[0] == w.A and st is not None])
-        vc.check(len(w.events) >= min(n, 1), "stop_all_for_address.reports_removed_entries")
+        # the whole loop on a concrete store: every entry of the address reported exactly
+        # once, its timer cancelled
+        gone = [(s, st) for s, st in snap if s[0] == w.A]
+        vc.check_eq(sorted(repr(e) for e in w.events), sorted(repr(("expired", s[1], w.A)) for s, st in gone), "stop_all_for_address.each_removed_entry_reported_exactly_once_immediately")
+        vc.check(all(st[1] is None or st[1].cancelled_ for s, st in gone), "stop_all_for_address.timers_cancelled")
     elif vc.stashed("saa.entering"):
         vc.cover("iteration")
         entry, cb, handle = vc.stashed("saa.element")
@@ -264,11 +272,15 @@ def ob_stop_all(vc):
     """stop_all(): for an arbitrary address, exactly stop_all_for_address; afterwards the
     store is empty"""
     w = World(vc)
+    snap = w.native_snapshot() if vc.native else None
     o = vc.outcome(vc.body(SD.TimedStore.stop_all), w.ts)
     vc.check(o.kind != "raise", "stop_all.never_raises")
     vc.check_eq(len(w.loop.ready), 0, "stop_all.defers_nothing")
     if vc.native:
         vc.check_eq(len(w.ts.store), 0, "stop_all.store_emptied")
+        gone = snap
+        vc.check_eq(sorted(repr(e) for e in w.events), sorted(repr(("expired", s[1], s[0])) for s, st in gone), "stop_all.each_entry_reported_exactly_once_immediately")
+        vc.check(all(st[1] is None or st[1].cancelled_ for s, st in gone), "stop_all.timers_cancelled")
         return
     if o.kind == "ret":
         vc.cover("exit")
